@@ -100,6 +100,10 @@ def handle (kind : String) (args : List String) (impl : String) : String :=
       let d := if impl == m then "" else s!"DIFF model={m} impl={impl}"
       let s := if balancedText impl && (impl.splitOn "pending").length == 1 then "" else s!"SPEC request-counters-unbalanced-at-quiescence impl={impl}"
       if d == "" && s == "" then "ok" else d ++ (if d != "" && s != "" then " ; " else "") ++ s
+  | "c20.names" =>
+    -- service A is quiescent: its gauges are zero and everything it opened is destroyed, whatever service B is doing
+    if impl == "active=0 open=0 up-active=0 up-open=0" then "ok"
+    else s!"SPEC quiescent-service-reports-open-connections impl={impl}"
   | "c20.cx" =>
     match args with
     | lim :: toks =>
